@@ -40,6 +40,8 @@ func runC03(w *core.World, r *core.Report) {
 	r.Rule("R6", "IndexError edge: no renderer reset, no code fetch, READIN set again")
 	r.Rule("R7", "State.SetInput in the engine records the Exec parameter unmodified")
 	r.Rule("R8", "READIN is raised by the INCMP gate only while no match is recorded (or again on the refused-previous edge)")
+	r.Rule("R14", "flag addressing loses no bits (C06 R9): a client flag index cannot wrap onto INMATCH, READIN or WAIT")
+	r.Rule("R13", "the pending code recorded after a run is that run's own result, on its success edge only (C08 R9): a failed run does not leave stale INCMP lines to match the next input")
 	r.Rule("R12", "the destructive code getter State.GetCode is called only by methods of DefaultEngine (code fetch, reset), never by diagnostics or other packages")
 	r.Rule("R11", "external code cannot clear INMATCH or READIN: every dynamic flag write is behind the write filter (C06 R1)")
 	r.Rule("R10", "State.Restart (which clears INMATCH, READIN and the recorded input) is called only by the engine's session restart")
@@ -195,6 +197,8 @@ func runC03(w *core.World, r *core.Report) {
 			"the pending INCMP lines are taken out of the state by something other than the code fetch of the next request (the getter empties State.Code): the next input is compared with nothing: "+bad)
 	}
 
+	checkCodeRecordedFromRun(w, r, "R13")
+	checkFlagAddressing(w, r, "R14")
 	// ---- R3 -----------------------------------------------------------------------------------
 	run := w.Func("vm", "(*Vm).Run")
 	step := vmStepFn(w) // Run, or the helper of Run that holds the per-instruction flag protocol
@@ -256,38 +260,8 @@ func runC03(w *core.World, r *core.Report) {
 		// the return after it carries MOVE _catch
 		okMove := false
 		moveOp, _ := constOf(w, r, "vm", "MOVE")
-		isCatchLine := func(c ssa.CallInstruction) bool {
-			if !core.IsCallTo(c, "vm.NewLine") {
-				return false
-			}
-			a := core.CallArgs(c)
-			if len(a) < 3 {
-				return false
-			}
-			if op, ok := core.ConstInt(a[1]); !ok || op != moveOp {
-				return false
-			}
-			return sliceHasConstString(a[2], "_catch")
-		}
 		for _, c := range core.Calls(dead) {
-			producer := isCatchLine(c)
-			// a helper of package vm that returns nothing but such a line
-			if g := core.StaticCallee(c); !producer && g != nil && core.PkgOf(g) == "vm" && len(g.Blocks) > 0 && g.Signature.Results().Len() == 1 {
-				all, n := true, 0
-				for _, in := range allInstrs(g) {
-					ret, ok := in.(*ssa.Return)
-					if !ok {
-						continue
-					}
-					for _, src := range core.Sources(ret.Results[0]) {
-						n++
-						if gc, ok := src.(*ssa.Call); !ok || !isCatchLine(gc) {
-							all = false
-						}
-					}
-				}
-				producer = all && n > 0
-			}
+			producer := isCatchLineProducer(c, moveOp)
 			if producer && core.CallValue(c) != nil {
 				// it reaches a return as result 0
 				for v := range core.Forward(core.CallValue(c), nil) {
@@ -409,4 +383,45 @@ func isClientInput(w *core.World, fn *ssa.Function, v ssa.Value, depth int) (boo
 		}
 	}
 	return true, "parameter passed unchanged from Exec"
+}
+
+// isCatchLineCall: c is vm.NewLine(_, MOVE, []string{"_catch"}, ...).
+func isCatchLineCall(c ssa.CallInstruction, moveOp int64) bool {
+	if !core.IsCallTo(c, "vm.NewLine") {
+		return false
+	}
+	a := core.CallArgs(c)
+	if len(a) < 3 {
+		return false
+	}
+	if op, ok := core.ConstInt(a[1]); !ok || op != moveOp {
+		return false
+	}
+	return sliceHasConstString(a[2], "_catch")
+}
+
+// isCatchLineProducer: c is such a call, or a call of a helper of package vm that returns nothing
+// but such a line.
+func isCatchLineProducer(c ssa.CallInstruction, moveOp int64) bool {
+	if isCatchLineCall(c, moveOp) {
+		return true
+	}
+	g := core.StaticCallee(c)
+	if g == nil || core.PkgOf(g) != "vm" || len(g.Blocks) == 0 || g.Signature.Results().Len() != 1 {
+		return false
+	}
+	all, n := true, 0
+	for _, in := range allInstrs(g) {
+		ret, ok := in.(*ssa.Return)
+		if !ok {
+			continue
+		}
+		for _, src := range core.Sources(ret.Results[0]) {
+			n++
+			if gc, ok := src.(*ssa.Call); !ok || !isCatchLineCall(gc, moveOp) {
+				all = false
+			}
+		}
+	}
+	return all && n > 0
 }
